@@ -8,9 +8,10 @@ verify <hs> <chain> | <rec>*                       -> ret <0|1> <nil|tls|nomatch
 check  <hr> <fut> <hs> <chain> | <rec>*            -> ret <none|auth> <nil|temp|tls|nomatch> | panic
 disc   <ck> <cn> <tr> <tm>                         -> ok <rec-keys> | err <nf|ot|na>
 conn   <hr> <ck> <cn> <tr> <tm> <hs> <chain>       -> as check
+cconn  <crashed> <ck> <cn> <tr> <tm> <hs> <chain>  -> as check (a panic was / was not raised inside the discovery)
 res    <srv>*                                      -> <ck> <cn> <tr> <tm> (results as rec keys) | panic
-rconn  <hs> <chain> <srv>+                         -> as check
-attempt <base> <att> <att> <att> <hr> <ck> <cn> <tr> <tm> <chainN>
+rconn  <hs> <chain> <srv>*                         -> as check
+attempt <base> <att> <att> <att> <hr> <ck> <cn> <tr> <tm> <chainN> [c<crashed>]
                                                    -> <connErr | refused <temp|tls|nomatch> | ok <none|enc|auth> | panic> st=<state>
 ```
 
@@ -31,8 +32,9 @@ attempt <base> <att> <att> <att> <hr> <ck> <cn> <tr> <tm> <chainN>
   chain pass crypto/tls' own verification against the client's root pool for name k (0 = MX host,
   1 = the other name). A handshake under a configuration without server name and without
   InsecureSkipVerify is refused by crypto/tls itself (`otherErr`). `<state>` = `-` (connect failed)
-  or `<hs>:<H|E|O>:<level>` = HandshakeComplete, ServerName (MX host / empty / other), tlsLevel
-  handed to `CheckConn`.
+  or `<hs>:<H|E|O>:<level>:<verified>` = HandshakeComplete, ServerName (MX host / empty / other),
+  tlsLevel handed to `CheckConn`, VerifiedChains non-empty. A last token `c1` / `c0`: a panic was /
+  was not raised inside the TLSA discovery `PrepareConn` started.
 * `<srv>` = `<loopback>/<a>/<aaaa>/<cname>/<tlsaR>/<tlsaM>`, each question `<udp>~<tcp>`, each
   message `x` (no usable answer) or `<rcode>:<ad>:<tc>:<body>`; body = `E|S|O` (owner of the last
   address record: none / the MX name / another name) for a and aaaa, `-` for cname, `<rec>,…` or
@@ -207,6 +209,7 @@ def showDisc : Except DiscErr (List Rec) → String
   | .error (.lookup .notFound) => "err nf"
   | .error (.lookup .other) => "err ot"
   | .error .noAddress => "err na"
+  | .error .incomplete => "err incomplete"
 
 /-! ### `attempt` -/
 
@@ -274,7 +277,14 @@ def showConnect : ConnectRes → String
   | .fail => "-"
   | .ok l st =>
     let n := match st.serverName with | none => "E" | some 0 => "H" | some _ => "O"
-    s!"{if st.hs then 1 else 0}:{n}:{showLevel l}"
+    s!"{if st.hs then 1 else 0}:{n}:{showLevel l}:{if st.verified then 1 else 0}"
+
+/-- the optional last token of `attempt` -/
+def parseCrashed : List String → Option Bool
+  | [] => some false
+  | ["c0"] => some false
+  | ["c1"] => some true
+  | _ => none
 
 def splitBar (toks : List String) : List String × List String :=
   (toks.takeWhile (· ≠ "|"), (toks.dropWhile (· ≠ "|")).drop 1)
@@ -306,6 +316,13 @@ def handle (toks0 : List String) : String :=
       else if !(poolsOk c tr.recs && poolsOk c tm.recs) then "bad-pools"
       else showCRes (connDecision c.env hr ⟨ck, cn, tr, tm⟩ hs c.certs)
     | _, _, _, _, _, _, _ => "bad-op"
+  | ["cconn", cr, ck, cn, tr, tm, hs, ch] =>
+    match bool? cr, parseCk ck, parseCn cn, parseAns tr, parseAns tm, bool? hs, parseChain ch with
+    | some cr, some ck, some cn, some tr, some tm, some hs, some c =>
+      if !tl.isEmpty then "bad-op"
+      else if !(poolsOk c tr.recs && poolsOk c tm.recs) then "bad-pools"
+      else showCRes (connDecisionC c.env true cr ⟨ck, cn, tr, tm⟩ hs c.certs)
+    | _, _, _, _, _, _, _ => "bad-op"
   | "res" :: srvs =>
     if !tl.isEmpty then "bad-op"
     else match srvs.mapM parseSrv with
@@ -317,16 +334,13 @@ def handle (toks0 : List String) : String :=
   | "rconn" :: hs :: ch :: srvs =>
     match bool? hs, parseChain ch, srvs.mapM parseSrv with
     | some hs, some c, some W =>
-      if !tl.isEmpty || W.isEmpty then "bad-op"
+      if !tl.isEmpty then "bad-op"
       else if !((srvRecs W).all (poolsOk c)) then "bad-pools"
-      else match resolverConn c.env udpOnly W hs c.certs with
-        | none => "panic"
-        | some r => showCRes r
+      else showCRes (resolverConn c.env udpOnly W hs c.certs)
     | _, _, _ => "bad-op"
-  | ["attempt", base, a0, a1, a2, hr, ck, cn, tr, tm, ch] =>
-    match parseChainN ch with
-    | none => "bad-op"
-    | some c =>
+  | "attempt" :: base :: a0 :: a1 :: a2 :: hr :: ck :: cn :: tr :: tm :: ch :: opt =>
+    match parseChainN ch, parseCrashed opt with
+    | some c, some crashed =>
       match parseBase base, [a0, a1, a2].mapM (parseAttempt c), bool? hr, parseCk ck, parseCn cn,
           parseAns tr, parseAns tm with
       | some base, some atts, some hr, some ck, some cn, some tr, some tm =>
@@ -334,9 +348,10 @@ def handle (toks0 : List String) : String :=
         else if !(poolsOk c.c tr.recs && poolsOk c.c tm.recs) then "bad-pools"
         else
           let srv : Nat → Attempt := fun i => atts.getD i ⟨false, false, false, fun _ => .otherErr, []⟩
-          let fut := discoverTLSA ⟨ck, cn, tr, tm⟩
+          let fut := prepareConn (if crashed then none else some (discoverTLSA ⟨ck, cn, tr, tm⟩))
           s!"{showMXRes (attemptMX c.envN 0 base srv hr fut)} st={showConnect (connect 0 base srv)}"
       | _, _, _, _, _, _, _ => "bad-op"
+    | _, _ => "bad-op"
   | _ => "bad-op"
 
 end Driver.C13
